@@ -491,8 +491,8 @@ def _scale_iqr(
     """
     data = np.asanyarray(data, dtype=np.float64)
     norm = 1.3489795003921634  # scipy.stats.norm.ppf(0.75) - scipy.stats.norm.ppf(0.25)
-    percentiles = np.percentile(data, [25, 75], axis=axis, keepdims=True)
-    return np.squeeze(np.diff(percentiles, axis=0) / norm)
+    percentiles = np.percentile(data, [25, 75], axis=axis)
+    return (percentiles[1] - percentiles[0]) / norm
 
 
 def _scale_mad(
@@ -529,7 +529,7 @@ def _scale_mad(
     if np.any(is_zero_mad):
         aad = np.mean(np.abs(data - loc), axis=axis, keepdims=True) / norm_aad
         mad = np.where(is_zero_mad, aad, mad)
-    return np.squeeze(mad)
+    return np.squeeze(mad, axis=axis)
 
 
 def _scale_doublemad(
